@@ -109,9 +109,12 @@ structure Inst where
   entries : List Entry
 deriving DecidableEq, Repr
 
+/-- `loose` = entries written directly under `Event`, before the first `InstanceID` element (the
+    property's documents have none; the code counts them for instance 0 — its "safety" fallback) -/
 structure LcDoc where
   rootAttrs : List (S × S)
   insts : List Inst
+  loose : List Entry := []
 deriving DecidableEq, Repr
 
 def qname (e : Entry) : S :=
@@ -131,6 +134,6 @@ def instEvents (i : Inst) : List Sax :=
   .start sInstanceID [(sVal, i.id)] :: (i.entries.flatMap entryEvents ++ [.stop sInstanceID])
 
 def events (d : LcDoc) : List Sax :=
-  .start sEvent d.rootAttrs :: (d.insts.flatMap instEvents ++ [.stop sEvent])
+  .start sEvent d.rootAttrs :: (d.loose.flatMap entryEvents ++ (d.insts.flatMap instEvents ++ [.stop sEvent]))
 
 end Upnp.C19
